@@ -1,1 +1,2 @@
 import PqVerif.Driver.Comb
+import PqVerif.Driver.Expr
